@@ -61,8 +61,8 @@ type VerifOp struct {
 	Inverse  bool          `json:"inverse,omitempty"`
 	Starts   []string      `json:"starts,omitempty"`
 	At       *VerifTimeRef `json:"at,omitempty"`
-	Second   []VerifEnt    `json:"second,omitempty"`   // race: the second writer's batch (the first one's is Ents)
-	PauseAt  string        `json:"pause_at,omitempty"` // race: hook point at which the first writer is held
+	Second   []VerifEnt    `json:"second,omitempty"`    // race: the second writer's batch (the first one's is Ents)
+	PauseAt  string        `json:"pause_at,omitempty"`  // race: hook point at which the first writer is held
 	FirstTxn bool          `json:"first_txn,omitempty"` // race: the first writer is a (single-dataset) transaction
 }
 
@@ -82,17 +82,17 @@ type VerifRel struct {
 }
 
 type VerifOpObs struct {
-	Err     string       `json:"err,omitempty"`
-	Panic   string       `json:"panic,omitempty"`
-	Lens    []int        `json:"lens,omitempty"`  // batch/txn: serialized length of each posted entity (internalId, recorded zeroed)
-	Time    int64        `json:"time,omitempty"`  // batch/txn: commit time (recorded) if anything was stored
-	Ents    []VerifEnt   `json:"ents,omitempty"`  // changes / get
-	Next    int64        `json:"next,omitempty"`  // changes: next token
-	Pages   [][]VerifEnt `json:"pages,omitempty"` // entities
-	RPages  [][]VerifRel `json:"rpages,omitempty"`
-	Found   bool         `json:"found,omitempty"`
+	Err     string              `json:"err,omitempty"`
+	Panic   string              `json:"panic,omitempty"`
+	Lens    []int               `json:"lens,omitempty"`  // batch/txn: serialized length of each posted entity (internalId, recorded zeroed)
+	Time    int64               `json:"time,omitempty"`  // batch/txn: commit time (recorded) if anything was stored
+	Ents    []VerifEnt          `json:"ents,omitempty"`  // changes / get
+	Next    int64               `json:"next,omitempty"`  // changes: next token
+	Pages   [][]VerifEnt        `json:"pages,omitempty"` // entities
+	RPages  [][]VerifRel        `json:"rpages,omitempty"`
+	Found   bool                `json:"found,omitempty"`
 	Raw     map[string][]string `json:"raw,omitempty"` // rawkeys: index id -> keys (hex) in Badger iteration order
-	NewSeqs int          `json:"newseqs,omitempty"`
+	NewSeqs int                 `json:"newseqs,omitempty"`
 }
 
 type VerifObs struct {
@@ -569,6 +569,40 @@ func verifDoOp(h *verifHub, op VerifOp, idx int, times map[int]int64, tokens map
 
 // VerifExtOps lets the driver's main package add operations that need packages which import package server
 var VerifExtOps = map[string]func(store *Store, dsm *DsManager, op VerifOp, tokens map[string]int64) VerifOpObs{}
+
+// VerifLens: serialized lengths of the entities of a payload as the parser builds them (nothing is stored)
+func VerifLens(store *Store, ents []VerifEnt) []int {
+	es, err := verifParse(store, ents)
+	if err != nil {
+		return nil
+	}
+	out := make([]int, 0, len(es))
+	for _, e := range es {
+		out = append(out, verifLen(e))
+	}
+	return out
+}
+
+// VerifPayload: the UDA JSON payload (context + entities) for a list of entities
+func VerifPayload(ents []VerifEnt) []byte { return verifPayload(ents) }
+
+// VerifEntFromMap converts one element of a streamed JSON response into the observation form
+func VerifEntFromMap(m map[string]interface{}) VerifEnt {
+	e := VerifEnt{}
+	if v, ok := m["id"].(string); ok {
+		e.ID = v
+	}
+	if v, ok := m["deleted"].(bool); ok {
+		e.Deleted = v
+	}
+	if v, ok := m["props"].(map[string]interface{}); ok {
+		e.Props = v
+	}
+	if v, ok := m["refs"].(map[string]interface{}); ok {
+		e.Refs = v
+	}
+	return e
+}
 
 // VerifOutEnt converts a stored entity JSON into the observation form
 func VerifOutEntJSON(jsonData []byte) VerifEnt {
